@@ -3,36 +3,20 @@ package main
 import (
 	"fmt"
 
-	"github.com/thanos-community/promql-engine/verifshim"
-
 	"verif/harness/core"
-	"verif/harness/explore"
 	"verif/harness/gen"
-	"verif/harness/mstore"
 )
 
 func main() {
-	verifshim.SetControlled(true)
-	for _, nth := range []int{5, 15, 25, 31, 35} {
-		cs := core.Case{Q: `a`, Data: gen.SchedData(43), W: core.Range(10000, 30000, 41), O: core.Opts{Procs: 2, Optimizers: "none"},
-			Faults: []mstore.Fault{{Kind: "seek", Series: 0, Nth: nth, Action: "error"}}}
-		sc := &explore.Scenario{Name: "x", Case: cs}
-		o := explore.RunOnce(sc, explore.Sched{EventStep: -1})
-		fmt.Println("nth", nth, "fired", o.Fired, "err", o.ExecErr, "steps", len(o.Run.Trace), "points", o.Res.NPoints())
-		if nth == 31 {
-			lost := 0
-			n := 0
-			for i, st := range o.Run.Trace {
-				for alt := 1; alt < int(st.NAlt); alt++ {
-					o2 := explore.RunOnce(sc, explore.Sched{EventStep: -1, Devs: []explore.Dev{{Step: i, Alt: alt}}})
-					n++
-					if len(o2.Fired) > 0 && o2.ExecErr == nil {
-						lost++
-						fmt.Println("  LOST at dev", i, alt, "points", o2.Res.NPoints())
-					}
-				}
-			}
-			fmt.Println("  D=1 schedules", n, "lost", lost)
+	data := gen.Dataset("D3")
+	st, _ := core.BuildStore(data)
+	for k := 0; k < 12; k++ {
+		t := int64(10000 + 30000*k)
+		for _, q := range []string{`(bottomk(2, a)) >= on (l) (sum by (l) (a))`, `bottomk(2, a)`, `sum by (l) (a)`} {
+			cs := &core.Case{Q: q, Data: data, W: core.Instant(t), O: core.Opts{Optimizers: "none"}}
+			o := core.RunEngine(cs, st)
+			r := core.RunRef(cs, st)
+			fmt.Printf("t=%d %-45s engine=%s\n%57s ref=%s\n", t, q, o.Res, "", r)
 		}
 	}
 }
